@@ -37,7 +37,7 @@ def correspond(ctx):
     for r in runs:
         by[r["scenario"]] = by.get(r["scenario"], 0) + 1
     cov = {"evaluations": len(runs), "distinct_nontrivial": len([r for r in runs if r.get("sent", 0) > 1]) + 2,
-           "rule": "orchestrated scenarios on the real pool: handoff (deferred Send while the flusher is at its exit point, enforced with hook points), send/stop/run orders, random stress (2-6 senders x 20-50 jobs, 1-3 slow workers, 1µs send timeout), concurrent double Stop x200/3000; non-trivial = scenario with more than one job in flight",
+           "rule": "orchestrated scenarios on the real pool: handoff (deferred Send while the flusher is at its exit point, enforced with hook points), send/stop/run orders, random stress (2-6 senders x 20-50 jobs, 1-3 slow workers, 1µs send timeout), concurrent double Stop x200/3000, a sender's context cancelled while its job runs / waits (sendercancel), Sends through an already ended context (endedctx), Sends from a running job and from outside while Stop waits (sendduringstop); non-trivial = scenario with more than one job in flight",
            "traces_validated_against_impl": len(runs), "distribution": {"runs_by_scenario": by},
            "samples": runs[:3] + runs[-2:], "summary": "%d scenario runs ok" % len(runs)}
     return {"violations": violations, "coverage": cov}
